@@ -20,7 +20,12 @@ oracle leg           the property's own clauses on the real objects after every 
 """
 import json
 
-MODELS = ['pit1d', 'pit2d', 'mpsL', 'mpsC', 'snS', 'snG']
+MODELS = ['pit1d', 'pit2d', 'mpsL', 'mpsC', 'mps1d', 'snS', 'snG']
+MODELS_THOROUGH = MODELS + ['mps1dC']
+# `MPSBaseQtz.sample_alpha_none` detaches the coefficients it keeps (1 = the model mirrors that tree; with 0 the
+# model predicts the RuntimeError of a forward+backward after disable_sampling=True on stale coefficients)
+DETACH_ON_NONE = 1
+K_BWD_RAISES = 'C11:mps:disable_sampling:forward+backward-raises-on-saved-coefficients'
 ALPHABET = {
     'pit': ['nas', 'net', 'both', 'F0', 'F1', 'R0', 'R1', 'D0', 'D1', 'C0', 'C1', 'fb'],
     'mps': ['nas', 'net', 'both', 'T:1/2', 'T:2', 'H:0', 'H:1', 'G:0', 'G:1', 'S:0', 'S:1', 'fb'],
@@ -111,6 +116,26 @@ def _build(model):
                 w_search_type=MPSType.PER_CHANNEL if model == 'mpsC' else MPSType.PER_LAYER,
                 qinfo=get_default_qinfo((2, 4, 8), (2, 4, 8)))
         x = torch.rand(4, 3, 4, 4)
+    elif model in ('mps1d', 'mps1dC'):
+        from plinio.methods.mps import MPS, MPSType, get_default_qinfo
+        from plinio.cost import params_bit
+
+        class N1(nn.Module):
+            def __init__(s):
+                super().__init__()
+                s.c0 = nn.Conv1d(2, 4, 3, padding=1)
+                s.c1 = nn.Conv1d(4, 4, 3, padding=1)
+                s.c2 = nn.Conv1d(4, 4, 1)                    # residual with c0: shared quantizers
+                s.fc = nn.Linear(4 * 8, 2)
+
+            def forward(s, x):
+                a = torch.relu(s.c0(x))
+                b = torch.relu(s.c1(a))
+                return s.fc((s.c2(b) + a).flatten(1))
+        m = MPS(N1(), input_shape=(2, 8), cost=params_bit,
+                w_search_type=MPSType.PER_CHANNEL if model == 'mps1dC' else MPSType.PER_LAYER,
+                qinfo=get_default_qinfo((2, 4, 8), (2, 4, 8)))
+        x = torch.rand(4, 2, 8)
     elif model in ('snS', 'snG'):
         from plinio.methods import SuperNet
         from plinio.methods.supernet import SuperNetModule
@@ -194,7 +219,7 @@ class _Desc:
             for pname, p in q.named_parameters():
                 tok = ('q%d@%d' % (q.alpha.shape[0], j)) if p is q.alpha else 'x@%d' % j
                 ids.append(self._add(tok, p, '%s.%s_mps_quantizer.%s' % (lname, role, pname), False))
-            self.qs.append([self.idx[id(q.alpha)], 0, 0, q, False, ids])
+            self.qs.append([self.idx[id(q.alpha)], 0, 0, q, False, ids, []])
             return j
         for lname, layer in self.m.named_modules():
             if not isinstance(layer, MPSModule):
@@ -205,6 +230,7 @@ class _Desc:
                 if q is None or not hasattr(q, 'alpha'):
                     continue
                 j = quant(q, lname, role)
+                self.qs[j][6].append((lname.replace('seed.', ''), role, type(layer).__name__))
                 refs += self.qs[j][5]
                 if role != 'in':
                     reach.append(j)
@@ -218,14 +244,14 @@ class _Desc:
                 j = len(self.qs)
                 i = self._add('c%d@%d' % (layer.n_branches, j), layer.alpha, lname + '.alpha', False)
                 self.qs.append([i, int(layer.sample_alpha.__name__ == 'sample_alpha_gs'), int(bool(layer.hard_softmax)),
-                                layer, True, [i]])
+                                layer, True, [i], [(lname.replace('seed.', ''), 'alpha', 'SuperNetCombiner')]])
                 self.layers.append([[i], None, None, None, [j], layer])
 
     def line(self, ops):
         dots = lambda l: '.'.join(str(i) for i in l) if l else '-'
         opt = lambda v: '-' if v is None else str(v)
-        return 'trace method=%s ts=[%s] layers=[%s] qs=[%s] ops=[%s]' % (
-            self.method, ','.join(t[0] for t in self.tensors),
+        return 'trace method=%s detach=%d ts=[%s] layers=[%s] qs=[%s] ops=[%s]' % (
+            self.method, DETACH_ON_NONE, ','.join(t[0] for t in self.tensors),
             ','.join('%s:%s:%s:%s:%s' % (dots(l[0]), opt(l[1]), opt(l[2]), opt(l[3]), dots(l[4])) for l in self.layers),
             ','.join('%d:%d:%d' % (q[0], q[1], q[2]) for q in self.qs), ','.join(ops))
 
@@ -287,7 +313,16 @@ def _observe(d, grad):
         ld = ''.join('1' if getattr(l[5], 'discrete_cost', False) else '0' for l in d.layers)
     else:
         flags, ld = '1110', '0' * len(d.layers)
-    return {'rg': rg, 'nas': nas, 'net': net, 'samp': samp, 'flags': flags + '/' + ld, 'grad': grad,
+    stale = []
+    if d.method == 'pit':
+        for a in ('train_features', 'train_rf', 'train_dilation'):
+            vals = {bool(getattr(l[5], a)) for l in d.layers if hasattr(l[5], a)}
+            if vals and vals != {bool(getattr(m, a))}:
+                stale.append(a)
+    elif d.method == 'sn':
+        if {bool(q[3].train_selection) for q in d.qs} != {bool(m.train_selection)}:
+            stale.append('train_selection')
+    return {'rg': rg, 'nas': nas, 'net': net, 'samp': samp, 'flags': flags + '/' + ld, 'grad': grad, 'stale': stale,
             'all': sorted(d.idx[id(p)] for p in m.parameters() if id(p) in d.idx),
             'n_params': len(list(m.parameters()))}
 
@@ -329,7 +364,8 @@ def _exec(case):
             obs.append(_observe(d, g))
         frozen = [i for i, t in enumerate(d.tensors) if t[3]]
         return {'obs': obs, 'line': d.line(case['ops']), 'frozen': frozen,
-                'reached': [bool(q[4]) for q in d.qs], 'names': [t[2] for t in d.tensors]}
+                'reached': [bool(q[4]) for q in d.qs], 'names': [t[2] for t in d.tensors],
+                'qusers': [q[6] for q in d.qs]}
     except Exception as e:
         import traceback
         return {'error': '%s: %s' % (type(e).__name__, str(e)[:300]), 'tb': traceback.format_exc()[-1500:]}
@@ -371,9 +407,12 @@ def _oracle(chk, case, res):
             if o['grad'] not in ('-', 'err') and o['grad'][k] == 'G':
                 chk.violation('C11:frozen-mask:receives-gradient',
                               'frozen mask %s received a non-zero gradient from loss + cost' % res['names'][k], base)
-        # (4) a single-option update leaves the other options as they were
+        # (4) a single-option update sets the option it names and leaves the others as they were, on every
+        #     quantizer of every layer type the model-level call reaches
         if op and op[0] in 'THGS' and ':' in op:
             k, v = op.split(':')
+            bad = {}            # finding -> [(quantizer index, message)]
+            n_reached = sum(1 for r in res['reached'] if r)
             for j, (s, T, h) in enumerate(o['samp']):
                 if not res['reached'][j]:
                     continue
@@ -383,16 +422,35 @@ def _oracle(chk, case, res):
                 if k == 'S' and meth == 'mps':
                     latent[j]['d'] = v == '1'
                 want = 'none' if latent[j]['d'] else 'gs' if latent[j]['g'] else 'sm'
+                who = ', '.join('%s.%s of %s' % (l, r, c) for l, r, c in res['qusers'][j])
                 if s != want:
-                    chk.violation('C11:update_softmax_options:partial-update-resets-sampler',
-                                  '%s left quantizer %d with sampler %s where the options given so far select %s'
-                                  % (_opname(op), j, s, want), base)
+                    bad.setdefault('partial-update-resets-sampler', []).append(
+                        (j, '%s left the quantizer %s with sampler %s where the options given so far select %s'
+                         % (_opname(op), who, s, want)))
                 if k != 'T' and abs(T - pT) > 1e-9:
-                    chk.violation('C11:update_softmax_options:partial-update-changes-temperature',
-                                  '%s changed the temperature %r -> %r' % (_opname(op), pT, T), base)
+                    bad.setdefault('partial-update-changes-temperature', []).append(
+                        (j, '%s changed the temperature of %s: %r -> %r' % (_opname(op), who, pT, T)))
                 if k != 'H' and h != ph:
-                    chk.violation('C11:update_softmax_options:partial-update-changes-hard',
-                                  '%s changed hard_softmax %r -> %r' % (_opname(op), ph, h), base)
+                    bad.setdefault('partial-update-changes-hard', []).append(
+                        (j, '%s changed hard_softmax of %s: %r -> %r' % (_opname(op), who, ph, h)))
+                from fractions import Fraction
+                if (k == 'H' and h != int(v)) or (k == 'T' and abs(T - float(Fraction(v))) > 1e-6):
+                    bad.setdefault('given-option-not-applied', []).append(
+                        (j, '%s did not set the option on %s (now %r)' % (_opname(op), who, h if k == 'H' else T)))
+            for finding, hits in bad.items():
+                if len(hits) == n_reached:
+                    # every quantizer: the class of the defect is the update itself
+                    chk.violation('C11:update_softmax_options:%s' % finding, hits[0][1], base)
+                else:
+                    # some quantizers only: class = the layer type(s) and role through which they are updated
+                    for j, msg in hits:
+                        cls = '+'.join(sorted({'%s.%s' % (c, r) for _, r, c in res['qusers'][j] if r != 'in'}))
+                        chk.violation('C11:update_softmax_options:%s:%s' % (cls, finding), msg, base)
+        # (5) every sequence of the alphabet can be completed
+        if o['grad'] == 'err':
+            chk.violation(K_BWD_RAISES, 'forward+backward raises "Trying to backward through the graph a second time": with '
+                          'sampling disabled the quantizers keep coefficients still attached to the graph an earlier '
+                          'backward freed', base)
 
 
 # ------------------------------------------------------------------ exploration
@@ -452,16 +510,16 @@ def _compare(chk, cases, results):
         chk.count((case['model'], tuple(case['ops'])), nontrivial=len(case['ops']) >= 1,
                   sample={'model': case['model'], 'ops': case['ops']},
                   bucket='%s:len=%d' % (case['model'], len(case['ops'])))
-        if any(o['grad'] == 'err' for o in res['obs']):
-            chk.observe('MPS: forward+backward after update_softmax_options(disable_sampling=True) raises '
-                        '"Trying to backward through the graph a second time" when the coefficients were last '
-                        'sampled with trainable alpha (stale theta_alpha keeps its consumed graph)')
+        for a in sorted({a for o in res['obs'] for a in o.get('stale', [])}):
+            chk.observe('not demanded by the property: the wrapper-level getter %s reports the value last written to it; '
+                        'after train_* calls it disagrees with the per-layer getters and with requires_grad (the model '
+                        'mirrors the wrapper attribute as "last written")' % a)
 
 
 def run(chk):
     from .. import common
     chk.rule = ('per model under test (PIT 1-D with strided conv / residual / output-tied layer, PIT 2-D with '
-                'input-tied residual and depthwise conv, MPS per-layer and per-channel with shared quantizers, '
+                'input-tied residual and depthwise conv, MPS 2-D per-layer and per-channel and MPS 1-D (Conv1d, residual add, Linear) with shared quantizers — every out / weight / in quantizer of every Identity, Conv1d, Conv2d, Add and Linear layer is observed —, '
                 'SuperNet with softmax and with Gumbel combiners): breadth-first closure over the abstract states '
                 'of the Lean model (requires_grad vector, sampler options incl. the latent gumbel/disable flags, '
                 'wrapper flags, stale-graph bits) — every reachable state x every call of the alphabet is one '
@@ -473,7 +531,7 @@ def run(chk):
     rng = chk.rng
     cases, closure_info = [], {}
     descs = {}
-    for model in MODELS:
+    for model in (MODELS if chk.quick else MODELS_THOROUGH):
         try:
             m, _ = _build(model)
             descs[model] = _Desc(model, m)
